@@ -267,6 +267,16 @@ def p_render_block(chk):
     wr = [c for c in calls if isinstance(c.func, ast.Name) and c.func.id == "writer"]
     outs = [ast.unparse(k.value) for c in wr for k in c.keywords if k.arg == "output"]
     chk.static("render.writer_writes_the_temp_file", bool(outs) and all(o == "tmpout" for o in outs), f"writer(..., output=...) arguments: {outs}")
+    # data flow: the name handed to the writer is bound by mkstemp only (no fall-back to the published path)
+    binds = []
+    for n in ast.walk(fn):
+        if isinstance(n, ast.Assign):
+            for t in n.targets:
+                names = [e.id for e in (t.elts if isinstance(t, (ast.Tuple, ast.List)) else [t]) if isinstance(e, ast.Name)]
+                if "tmpout" in names:
+                    binds.append((n.lineno, ast.unparse(n.value)))
+    chk.static("render.temp_name_comes_from_mkstemp_only", bool(binds) and all("mkstemp(" in v for _, v in binds), f"assignments to tmpout: {binds}",
+               {"assignments": binds}, "render-temp-fallback", None)
     ren = [c for c in calls if ast.unparse(c.func) in ("os.rename", "os.replace")]
     ok = [ast.unparse(c) for c in ren]
     chk.static("render.publish_by_rename_of_the_temp_file", any(ast.unparse(c.args[0]) == "tmpout" and ast.unparse(c.args[1]) == "output" for c in ren if len(c.args) == 2), f"{ok}")
